@@ -29,6 +29,7 @@ const (
 	pQuiesce
 	pYield
 	pOnce
+	pSync
 )
 
 type selCase struct {
@@ -51,6 +52,7 @@ type ThreadX struct {
 	sel        []selCase
 	hasDefault bool
 	once       *onceState
+	syncObj    int
 	// results
 	rval   Value
 	rok    bool
@@ -68,6 +70,102 @@ type transition struct {
 	pcase   int      // select case of partner
 }
 
+// transID identifies a transition independently of the state it is offered in
+// (a parked thread's pending operation does not change until it is scheduled).
+type transID struct {
+	tid, kind, partner, caseIdx int
+	objs                        string // sorted ids of the channels / sync objects touched
+}
+
+func (e *Exec) transIdent(tr transition) transID {
+	t := tr.t
+	id := transID{tid: t.id, kind: int(t.pend), partner: -1, caseIdx: tr.caseIdx}
+	if tr.partner != nil {
+		id.partner = tr.partner.id
+	}
+	switch t.pend {
+	case pSend, pRecv, pClose:
+		if t.ch != nil {
+			id.objs = fmt.Sprintf("c%d", t.ch.id)
+		}
+	case pSelect:
+		var ids []string
+		for _, sc := range t.sel {
+			if sc.ch != nil {
+				ids = append(ids, fmt.Sprintf("c%d", sc.ch.id))
+			}
+		}
+		id.objs = strings.Join(ids, ",")
+	case pOnce:
+		id.objs = fmt.Sprintf("o%p", t.once)
+	case pSync:
+		id.objs = fmt.Sprintf("s%d", t.syncObj)
+	case pQuiesce:
+		id.objs = "*"
+	}
+	return id
+}
+
+// independent: the two transitions commute (different threads, no common
+// channel / sync object, neither observes global quiescence).
+func independent(a, b transID) bool {
+	if a.tid == b.tid || a.tid == b.partner || b.tid == a.partner || (a.partner >= 0 && a.partner == b.partner) {
+		return false
+	}
+	if a.objs == "*" || b.objs == "*" {
+		return false
+	}
+	if a.objs == "" || b.objs == "" {
+		return true
+	}
+	for _, x := range strings.Split(a.objs, ",") {
+		for _, y := range strings.Split(b.objs, ",") {
+			if x == y {
+				return false
+			}
+		}
+	}
+	return true
+}
+
+// pick chooses among the enabled transitions with sleep-set reduction:
+// transitions already explored from an equivalent state are not re-explored.
+func (e *Exec) pick(trans []transition) transition {
+	ss := e.ss
+	if len(ss.threads) == 1 {
+		return trans[0]
+	}
+	ids := make([]transID, len(trans))
+	var cands []int
+	for i, tr := range trans {
+		ids[i] = e.transIdent(tr)
+		if !ss.sleep[ids[i]] {
+			cands = append(cands, i)
+		}
+	}
+	if len(cands) == 0 {
+		panic(abortf("pruned", "interleaving equivalent to one already explored (sleep set)"))
+	}
+	k := 0
+	if len(cands) > 1 {
+		k = e.Sched(len(cands))
+	}
+	chosen := ids[cands[k]]
+	next := map[transID]bool{}
+	for z := range ss.sleep {
+		if independent(z, chosen) {
+			next[z] = true
+		}
+	}
+	for j := 0; j < k; j++ {
+		if z := ids[cands[j]]; independent(z, chosen) {
+			next[z] = true
+		}
+	}
+	ss.sleep = next
+	return trans[cands[k]]
+}
+
 type killSignal struct{}
 
 type schedState struct {
@@ -77,10 +175,11 @@ type schedState struct {
 	finished chan interface{}
 	wg       sync.WaitGroup
 	once     map[*Value]*onceState
+	sleep    map[transID]bool
 }
 
 func (e *Exec) initSched() {
-	e.ss = &schedState{finished: make(chan interface{}, 64), once: map[*Value]*onceState{}}
+	e.ss = &schedState{finished: make(chan interface{}, 64), once: map[*Value]*onceState{}, sleep: map[transID]bool{}}
 }
 
 // runThreads runs body as thread 0 and returns what ended the path:
@@ -239,7 +338,7 @@ func (e *Exec) enabled() []transition {
 			continue
 		}
 		switch t.pend {
-		case pStart, pResume, pYield, pClose:
+		case pStart, pResume, pYield, pClose, pSync:
 			out = append(out, transition{t: t})
 		case pOnce:
 			if t.once.state != 1 {
@@ -294,7 +393,7 @@ func (e *Exec) perform(tr transition) {
 	c := e.ctx
 	_ = c
 	switch t.pend {
-	case pStart, pResume, pYield, pQuiesce:
+	case pStart, pResume, pYield, pQuiesce, pSync:
 	case pClose:
 		if t.ch == nil {
 			e.ss.cur = t
@@ -368,14 +467,8 @@ func (e *Exec) reschedule() {
 		if len(trans) == 0 {
 			e.deadlock()
 		}
-		k := 0
-		if len(trans) > 1 {
-			k = e.Sched(len(trans))
-		}
-		tr := trans[k]
-		wasPartner := tr.partner
+		tr := e.pick(trans)
 		e.perform(tr)
-		_ = wasPartner
 		next := tr.t
 		if next == me {
 			return
@@ -412,11 +505,7 @@ func (e *Exec) threadExit(t *ThreadX) {
 	if len(trans) == 0 {
 		e.deadlock()
 	}
-	k := 0
-	if len(trans) > 1 {
-		k = e.Sched(len(trans))
-	}
-	tr := trans[k]
+	tr := e.pick(trans)
 	e.perform(tr)
 	ss.cur = tr.t
 	tr.t.wake <- struct{}{}
@@ -455,6 +544,16 @@ func (e *Exec) yield() {
 		return
 	}
 	t.pend = pYield
+	e.reschedule()
+}
+
+// syncPoint: a visible operation on a pseudo object (models a lock-protected access).
+func (e *Exec) syncPoint(obj int) {
+	t := e.ss.cur
+	if len(e.ss.threads) == 1 {
+		return
+	}
+	t.pend, t.syncObj = pSync, obj
 	e.reschedule()
 }
 
